@@ -26,6 +26,27 @@ def load_known_findings() -> list[dict]:
     return list(data.get("findings", []))
 
 
+def _finding_matches(k: dict, rule: str, construct: str, witness_class: str) -> bool:
+    """A known finding is keyed by rule + construct (exact, or by a stated prefix) + witness
+    class (exact, or by a stated regular expression).  Nothing else is ever suppressed."""
+    import re
+    if k.get("rule") != rule:
+        return False
+    if "construct" in k:
+        if k["construct"] != construct:
+            return False
+    elif "construct_prefix" in k:
+        if not construct.startswith(k["construct_prefix"]):
+            return False
+    else:
+        return False
+    if "witness_class" in k:
+        return k["witness_class"] == witness_class
+    if "witness_regex" in k:
+        return re.fullmatch(k["witness_regex"], witness_class) is not None
+    return False
+
+
 class Report:
     def __init__(self, prop_id: str, tier: str, seed: int):
         self.prop_id = prop_id
@@ -71,11 +92,15 @@ class Report:
         for k in self._known:
             if k.get("status", "known") != "known":
                 continue
-            if (k.get("rule") == rule and k.get("construct") == construct
-                    and k.get("witness_class", "") == witness_class):
-                if key not in self._seen_violation_keys:
-                    self.known_hits.append({**entry, "finding": k.get("id", "")})
-                    self._seen_violation_keys.add(key)
+            if _finding_matches(k, rule, construct, witness_class):
+                fkey = ("known", k.get("id", ""), rule)
+                if fkey not in self._seen_violation_keys:
+                    self.known_hits.append({**entry, "finding": k.get("id", ""), "what": k.get("what", "")})
+                    self._seen_violation_keys.add(fkey)
+                else:
+                    for h in self.known_hits:
+                        if h["finding"] == k.get("id", "") and h["rule"] == rule:
+                            h["instances"] = h.get("instances", 1) + 1
                 self.obligations.append({**entry, "verdict": "known-finding"})
                 return
         if key in self._seen_violation_keys:
@@ -128,8 +153,9 @@ class Report:
                     pass
         lines = []
         for k in self.known_hits:
-            lines.append(f"KNOWN-FINDING: property={self.prop_id} {k['rule']} at {k['construct']} "
-                         f"[{k['witness_class']}] {k['message']}")
+            lines.append(f"KNOWN-FINDING: property={self.prop_id} {k['finding']} {k['what']} -- e.g. "
+                         f"{k['rule']} at {k['construct']} [{k['witness_class']}] {k['message'][:400]}"
+                         + (f" (+{k['instances'] - 1} more instances)" if k.get("instances", 1) > 1 else ""))
         for i, v in enumerate(self.violations):
             path = os.path.join(REPLAY_DIR, f"{self.prop_id}-{i}.json")
             with open(path, "w", encoding="utf-8") as f:
